@@ -355,3 +355,37 @@ def bytes_match_table(fn, prog, max_paths=4000):
                 continue
             out.append((lit, (val or {}).get("desc", str(val))))
     return out
+
+
+def split_top(text, sep=","):
+    """split at separators that are not nested in (), {} or []"""
+    out, depth, cur = [], 0, ""
+    for ch in text:
+        if ch in "({[":
+            depth += 1
+        elif ch in ")}]":
+            depth -= 1
+        if ch == sep and depth == 0:
+            out.append(cur)
+            cur = ""
+        else:
+            cur += ch
+    out.append(cur)
+    return out
+
+
+def table_column(desc):
+    """`next(into_iter(array{tuple{a,b,c},tuple{..}}))@Some.0.K` (an element of a literal table being iterated, as produced by
+    describe_deep) -> (rows as lists of field descriptions, K); rows of a plain `array{x,y}` are one-field rows with K = 0.
+    None when the description is not of that form."""
+    m = re.match(r"^next\((?:into_iter|iter_mut|iter)\(array\{(.*)\}\)\)@Some\.0(?:\.(\d+))?$", desc)
+    if not m:
+        return None
+    rows = []
+    for el in split_top(m.group(1)):
+        t = re.match(r"^tuple\{(.*)\}$", el)
+        rows.append(split_top(t.group(1)) if t else [el])
+    col = int(m.group(2)) if m.group(2) is not None else 0
+    if any(col >= len(r) for r in rows):
+        return None
+    return rows, col
